@@ -13,19 +13,31 @@ PROPS = {
         'props_file': 'props/C20.v',
         'domains': [
             {'name': 'breaker', 'quick': 160, 'thorough': 4000, 'thorough_shards': 20},
+            {'name': 'throttle', 'quick': 150, 'thorough': 3000, 'thorough_shards': 20},
             {'name': 'loc-capacity', 'quick': 300, 'thorough': 10000, 'thorough_shards': 10},
         ],
         'spec_ops': [],
-        'corr': 'corr.breaker (CorrBreaker.check_breaker: step-by-step replay of observed Do/Status/Reset/Adjust through Breaker.b_do Fixed)',
+        'corr': 'corr.breaker (CorrBreaker.check_breaker: step-by-step replay of observed Do/Status/Reset/Adjust through Breaker.b_do Fixed); '
+                'corr.throttle (CorrThrottle.check_throttle: observed Submit entries/exits and Disable calls of a real core.Throttle replayed through Breaker.tstep2 = submit_enter/submit_exit/set_disabled)',
         'rule': 'breaker: histories of 10-60 Do/Status calls (bursts, polling faster/slower than a tick, silences around '
                 'the interval; 1 in 5 with Reset/Adjust; 1 in 11 with 8 concurrent callers) on a real OutboundBreaker; '
-                'non-trivial = the replay exercised at least two distinct (verdict, slide-kind) branches; distinct by hash of inputs',
+                'non-trivial = the replay exercised at least two distinct (verdict, slide-kind) branches; distinct by hash of inputs. '
+                'throttle: a fresh core.Throttle over a fresh OutboundBreaker (pendingLimit 0-3, breaker limit 1-2 or 50, interval 0.4-0.8 s, pause 20-50 ms, '
+                'attempts for 0.35-1 s of polling, 1 in 17 with 0-2 attempts), a scripted schedule of 2-25 submissions launched one after another from their own '
+                'goroutines (32 ms settle after each; functions that count their runs, 1 in 3 returning their own error, some blocking until released): under the '
+                'limit, exactly pendingLimit+1 in flight then one more, runs of 2-5 overflows followed by further submissions while the first are in flight, '
+                'one slot freed at a time, drain and start over, Disable(true/false) at various points, random mixes; the pending counter is read (tag verif) at every drain; '
+                'an exit within 12 ms of a launch is compared only if both orders predict the same outcome; non-trivial = an overflow or pendingLimit+1 in flight was observed',
         'refuted': ['polling_starves_refuted (pinned code; fixed)', 'slide_whole_ticks_alone_unsafe_refuted (rejected repair)',
-                    'simple_breaker_contract_refuted (D22)'],
+                    'simple_breaker_contract_refuted (D22)',
+                    'disabled_throttle_never_recovers_refuted (a disabled throttle leaks its pending counter on every overflow)'],
         'level_text': 'Coq theorems over the executable breaker/throttle model for every limit, interval >= 20ns and every non-decreasing call sequence: '
                       'rate_bound (no window of 20*res holds more than limit admissions; both pinned and repaired code), recovers (repaired code admits '
                       'once earlier admissions are a window old, whatever was polled), throttle_at_most_once, pending_le_limit_plus_one over all '
-                      'interleavings. Tie to the code: step-by-step replay of observed histories of the real OutboundBreaker (state accessor under tag verif) '
+                      'interleavings; throttle_waiting_bounded (every history of entries, exits and Disable calls: at most pendingLimit+1 waiting, an entry admitted only '
+                      'while at most pendingLimit wait), throttle_counter_exact and throttle_recovers (never disabled: counter = number waiting, back to 0 after a drain, '
+                      'exactly pendingLimit+1 admitted again), throttle_overflow_no_effect. Tie (throttle): observed schedules on the real core.Throttle replayed through the same event system, '
+                      'bound and run counts judged on the observation. Tie to the code: step-by-step replay of observed histories of the real OutboundBreaker (state accessor under tag verif) '
                       'through the extracted model, plus the extracted spec checkers on the observations (8 concurrent callers included).',
         'level_note': 'History-level theorems (proofs/Hist*.v): over ANY history a location stays within MaxFacts under every request except EnableRule(false), SetParents and Reload, which store facts without the capacity gate (counterexample lemmas; the property speaks of the add operations only); an add refused for capacity leaves the whole system unchanged. Trusted: Coq kernel, extraction (ExtrOcamlBasic), OCaml JSON glue, Go harness; monotonic clock, instants inside recorded brackets; '
                       'capacity: refused_add_no_effect and add_respects_capacity over the location model (property facts written by EnableRule/SetParents bypass the capacity gate by design of the code: D23, outside the public add operations).',
